@@ -71,7 +71,7 @@ type wopts struct {
 	Reset     string // "" | "b"
 	Expect    string // "" | "value:<a>/<b>" | "check-pass" | "check-fail"
 	Before    bool   // InterceptBefore: value.a += old.a + 10
-	After     bool   // InterceptAfter: new.b = "after"
+	After     bool   // InterceptAfter: new.b = "after:" + first letter of old.b
 	WriteTime bool
 	// collection only
 	Create       bool
@@ -165,7 +165,8 @@ func (o wopts) build(c *cb) []resource.WriteOption {
 		}))
 	}
 	if o.After {
-		w = append(w, resource.InterceptAfter(func(old, n proto.Message) { n.(*T).DefaultString = "after" }))
+		// (it reads the OLD value: what was stored before this write, not what the write has made of it)
+		w = append(w, resource.InterceptAfter(func(old, n proto.Message) { n.(*T).DefaultString = "after:" + first(old.(*T).GetDefaultString()) }))
 	}
 	if o.WriteTime {
 		w = append(w, resource.WithWriteTime(t0.Add(-time.Hour)))
@@ -226,6 +227,13 @@ func (m *model) validate(o wopts) codes.Code {
 	return codes.OK
 }
 
+func first(s string) string {
+	if s == "" {
+		return ""
+	}
+	return s[:1]
+}
+
 func (m *model) change(old val, v val, o wopts) (val, codes.Code) {
 	if strings.HasPrefix(o.Expect, "value:") && o.Expect[6:] != old.String() {
 		return old, codes.FailedPrecondition
@@ -251,7 +259,7 @@ func (m *model) change(old val, v val, o wopts) (val, codes.Code) {
 		}
 	}
 	if o.After {
-		n.b = "after"
+		n.b = "after:" + first(old.b)
 	}
 	return n, codes.OK
 }
